@@ -57,6 +57,15 @@ def check_view(ck, view, tag=""):
         if hit is None and kind == "all":
             # every element addressed individually?
             hit = bits.get(path + "[*]")
+        if hit is None and kind == "all":
+            # … or one by one with constant indices (`let [c0, c1] = self.transfer_count; vec![c0, c1, ..]`): all of 0..len must be there
+            from . import lc as _lc
+            n_el = _lc.known_len(role)
+            if n_el is None and isinstance(role, tuple) and role and role[0] == "call" and role[3] and isinstance(role[3][-1], int):
+                n_el = role[3][-1]
+            each = [bits.get("%s[%d]" % (path, i)) for i in range(n_el)] if isinstance(n_el, int) and 0 < n_el <= 8 else []
+            if each and all(h is not None for h in each):
+                hit = (max(h[0] for h in each), each[0][1], "all")
         key = tag + "range32/" + path
         if hit is None:
             ck.fail(R, key, "no unconditional range_check covers leaf target `%s` (a satisfying witness may hold any field element there)" % path,
